@@ -344,8 +344,9 @@ pub fn minimise(full: &Scenario, a: &Obs, b: &Obs, budget: usize) -> Option<Mini
     for idx in order {
         loop {
             let mut improved = false;
+            let cur_size = tok_size(&cur.inputs[idx]);
             for cand in input_candidates(&cur.inputs[idx]) {
-                if cand.len() >= cur.inputs[idx].len() {
+                if tok_size(&cand) >= cur_size {
                     continue;
                 }
                 let mut c = cur.clone();
@@ -405,6 +406,22 @@ pub fn minimise(full: &Scenario, a: &Obs, b: &Obs, budget: usize) -> Option<Mini
 }
 
 // ------------------------------------------------------------------ input shrinking
+
+/// size of an input = number of tokens (independent of how the text is spaced)
+pub fn tok_size(text: &str) -> usize {
+    fn count(ts: proc_macro2::TokenStream) -> usize {
+        ts.into_iter()
+            .map(|tt| match tt {
+                proc_macro2::TokenTree::Group(g) => 1 + count(g.stream()),
+                _ => 1,
+            })
+            .sum()
+    }
+    match text.parse::<proc_macro2::TokenStream>() {
+        Ok(ts) => count(ts),
+        Err(_) => text.len(),
+    }
+}
 
 fn print(di: &DeriveInput) -> String {
     di.to_token_stream().to_string()
@@ -619,7 +636,7 @@ pub fn input_candidates(text: &str) -> Vec<String> {
             }
         },
     }
-    out.sort_by_key(|s| s.len());
+    out.sort_by_key(|s| tok_size(s));
     out.dedup();
     out
 }
